@@ -133,7 +133,8 @@ theorem C16_counterexample_inner_default_returns :
     s.pc = .idle ∧ s.written.getLast? = some 2 ∧ latestVisible s = some 1 := by decide
 
 /-- the shape of `WriteLast` on the current tree -/
-theorem C16_on_tree : Facts.overrideChannelInnerDefaultContinues = true := by decide
+theorem C16_on_tree : Facts.overrideChannelInnerDefaultContinues = true ∧
+    Facts.sequenceUpdateOnlyOnSuccess = true := by decide
 
 -- non-vacuity: a schedule in which the receiver runs between the failed send and the drain
 example : (Oxia.OverrideChannel.run true [.call 1, .writerStep, .call 2, .writerStep, .recv, .writerStep, .writerStep]).written = [1, 2] := by decide
